@@ -738,6 +738,11 @@ class SyncClientWorld:
             s.decided = True
             raise WSTimeout('connect timed out')
         if not s.accepted:
+            how = getattr(s, 'refuse_how', 'refused')
+            if how == 'unreachable':
+                raise OSError(113, 'No route to host')          # an OSError that is not a ConnectionError
+            if how == 'timeout':
+                raise TimeoutError('timed out')
             raise ConnectionRefusedError(111, 'Connection refused')
         s.conn = FakeSyncWS(self, s)
         s.conn.timeout = opts.get('timeout')
@@ -754,7 +759,8 @@ class SyncClientWorld:
         p.outcome = ('error', 'connection')
         p.answered = True
 
-    def ws_decide(self, s, accept):
+    def ws_decide(self, s, accept, how='refused'):
+        s.refuse_how = how
         s.accepted = bool(accept)
         s.decided = True
 
